@@ -63,7 +63,7 @@ def _equiv_history(prog, form1, form2, ia, ia3, vb_kind, compress, boundary, ver
 
 def ob_equiv(form1: int, form2: int, ia: int, ia3: int, vb_kind: int, check_first: bool) -> bool:
     """
-    pre: 0 <= form1 <= 6 and 0 <= form2 <= 6
+    pre: 0 <= form1 <= 7 and 0 <= form2 <= 7
     pre: 0 <= ia <= 10 and 0 <= ia3 <= 10
     pre: 0 <= vb_kind <= 2
     post: _
@@ -148,6 +148,49 @@ def ob_containers(ci: int, form1: int, form2: int, boundary: int) -> bool:
         return H.verdict(not problems)
 
 
+MAIN_PATHS = ["/vfs/src/job.py", "/vfs/src/sub/../job.py", "/vfs/src//job.py", "/vfs/src/./job.py", "/vfs/src/sub/../../src/job.py"]
+MAIN_SRC = "LOG = []\ndef f(a):\n    LOG.append(a)\n    return ('main', a)\n"
+
+
+def ob_main_script(p1: int, p2: int, a: int) -> bool:
+    """
+    pre: 0 <= p1 <= 4 and 0 <= p2 <= 4
+    pre: 0 <= a <= 1
+    post: _
+    """
+    H.enter()
+    # a function of the __main__ script, the script being launched through different spellings of the same path in two
+    # processes sharing one cache directory (python job.py / python ../job.py from a sub-directory / ...)
+    i1, i2, aa = H.select(p1, 0, 4), H.select(p2, 0, 4), H.select(a, 0, 1)
+    with H.native():
+        from symx.stubs import fakefs
+        fs = fakefs.FS()
+        clock = memlib.Clock()
+        probs = []
+        with memlib.env(fs, clock):
+            fs.dirs.update({"/vfs/src", "/vfs/src/sub"})
+            fs.files["/vfs/src/job.py"] = MAIN_SRC.encode()
+            runs = []
+            for path in (MAIN_PATHS[i1], MAIN_PATHS[i2]):
+                memlib.fresh_process()
+                ns = {"__name__": "__main__", "__file__": path}
+                exec(compile(MAIN_SRC, path, "exec"), ns)
+                f = ns["f"]
+                f.__module__ = "__main__"
+                g = memlib.new_memory().cache(f)
+                incache = g.check_call_in_cache(aa)
+                v = g(aa)
+                runs.append((incache, len(ns["LOG"]), v))
+            if runs[0][1] != 1 or runs[0][2] != ("main", aa):
+                probs.append("first process: %r" % (runs[0],))
+            if runs[1][0] is not True or runs[1][1] != 0 or runs[1][2] != ("main", aa):
+                probs.append("script launched as %r then as %r: second process check_call_in_cache=%r, body ran %d times" % (
+                    MAIN_PATHS[i1], MAIN_PATHS[i2], runs[1][0], runs[1][1]))
+        for m in probs:
+            H.note(m)
+        return H.verdict(not probs)
+
+
 def ob_accepts(args: List[int], k_a: bool, k_b: bool, k_k: bool, extra: bool) -> bool:
     """
     pre: len(args) <= 4
@@ -214,6 +257,8 @@ def obligations(tier, seed):
     for prog in ("f", "k1.m"):
         obs.append({"name": "ignore/%s" % prog, "fn": "ob_ignore", "mode": "S", "params": {"program": prog},
                     "timeout": 900, "bounds": "ignore=['b']: forms 3x3, a, b1, b2 in universe[:4], second call same or other a"})
+    obs.append({"name": "main_script", "fn": "ob_main_script", "mode": "S", "timeout": 300,
+                "bounds": "a __main__ function, the script path spelled in 5 equivalent ways, two processes, arg 0..1"})
     obs.append({"name": "containers", "fn": "ob_containers", "mode": "S", "timeout": 300,
                 "bounds": "7 container arguments rebuilt in another insertion order, forms 4x4, same/fresh process"})
     for prog in ("f", "g"):
